@@ -1,2 +1,123 @@
 (* C06 property theorems. Nothing but statements closed by [exact]. *)
-From OIDC Require Import Lib C06_spec.
+From OIDC Require Import Lib Base64 Base64_proofs Cipher C02_Jws C01_Verifier C02_Verifiers
+     C06_Token C06_spec C06_proofs C06_model_proofs.
+
+(* The provider's readers (userinfo/introspection, revocation, token exchange;
+   after fix F15) return exactly (token id, subject) for the opaque token made
+   from them - for EVERY subject, colons included, any IV and block cipher. *)
+Theorem C06_opaque_roundtrip : forall (E : list nat -> list nat),
+  (forall b, List.length (E b) = 16) -> (forall b, all_bytesP (E b)) ->
+  forall iv tid sub, List.length iv = 16 -> all_bytesP iv -> no_colon tid = true ->
+  reader E (mk_bearer E iv tid sub) = Some (tid, sub).
+Proof. exact opaque_roundtrip. Qed.
+Print Assumptions C06_opaque_roundtrip.
+
+(* Every ID token of every flow's response: signed by the current key; iss, aud,
+   azp, sub, nonce, acr, amr, auth_time from the request; iat = now - skew,
+   exp - iat = lifetime + 2 skew; at_hash / c_hash over the access token and code of
+   this very response; user claims only for granted scopes; nothing else. *)
+Theorem C06_id_token_claims :
+  forall (H : hkind -> string -> list nat) (E : list nat -> list nat)
+         issuer f cl k u rq state ids en now j ic,
+    let r := create_token_response H E issuer f cl k u rq state ids en now in
+    r_id r = Some (j, ic) ->
+    j = sign_desc k
+    /\ i_iss ic = issuer
+    /\ string_in (cl_id cl) (i_aud ic) = true
+    /\ i_azp ic = cl_id cl
+    /\ i_sub ic = rq_sub rq
+    /\ i_nonce ic = (if is_auth_request f then rq_nonce rq else "")
+    /\ i_acr ic = (if is_auth_request f then rq_acr rq else "")
+    /\ i_amr ic = (if is_exchange f then [] else rq_amr rq)
+    /\ i_auth_time ic = (if is_exchange f then (sec now - cl_skew cl)%Z
+                         else shifted_auth_time (rq_auth_time rq) (cl_skew cl))
+    /\ i_iat ic = (sec now - cl_skew cl)%Z
+    /\ (i_exp ic - i_iat ic = cl_id_life cl + 2 * cl_skew cl)%Z
+    /\ i_at_hash ic = (if access_wire (r_access r) =s "" then ""
+                       else claim_hash H (sk_alg k) (access_wire (r_access r)))
+    /\ i_c_hash ic = (if flow_code f =s "" then "" else claim_hash H (sk_alg k) (flow_code f))
+    /\ (i_name ic <> "" -> string_in "profile" (granted f cl rq) = true)
+    /\ (i_email ic <> "" -> string_in "email" (granted f cl rq) = true)
+    /\ (i_email_verified ic = true -> string_in "email" (granted f cl rq) = true)
+    /\ i_extra ic = [].
+Proof. exact id_token_claims. Qed.
+Print Assumptions C06_id_token_claims.
+
+(* ... and the relying party's check sequence (C01 model: rp.VerifyIDToken and
+   rp.VerifyTokens incl. at_hash) accepts it against the published key set, for
+   any signature oracle that accepts the provider key's own signatures, whenever
+   the configuration is consistent: algorithm allowed, offset >= -skew,
+   offset + 2 s <= lifetime + skew, expected nonce/acr, verified within 1 s. *)
+Theorem C06_id_token_verifies :
+  forall (verify : jwk -> sigentry -> string -> bool) (H : hkind -> string -> list nat)
+         (E : list nat -> list nat) issuer f cl k extra u rq state ids en now j ic v vnow,
+    let r := create_token_response H E issuer f cl k u rq state ids en now in
+    r_id r = Some (j, ic) ->
+    sign_complete verify k -> key_ok k = true -> hash_of_alg (sk_alg k) <> None ->
+    rq_sub rq <> "" -> cl_id cl <> "" ->
+    rp_consistent issuer f cl k rq v now vnow ->
+    let ks := KSOpenID (Some (served_keys k extra)) in
+    verify_id_token verify v ks (sym_token j) (MidOk "P" (to_c01 ic)) vnow = Accept (to_c01 ic) (sk_alg k)
+    /\ verify_tokens verify H v ks (sym_token j) (MidOk "P" (to_c01 ic)) (access_wire (r_access r)) vnow
+       = Accept (to_c01 ic) (sk_alg k).
+Proof. exact id_token_verifies. Qed.
+Print Assumptions C06_id_token_verifies.
+
+(* JWT access tokens: iss, sub, aud, client_id from the request / client, jti and exp
+   = the storage's token id and expiry, iat = nbf = now - skew, private claims only
+   for granted custom scopes; op.VerifyAccessToken (C02 model) accepts them. *)
+Theorem C06_access_jwt_verifies :
+  forall (verify : jwk -> sigentry -> string -> bool) (H : hkind -> string -> list nat)
+         (E : list nat -> list nat) issuer f cl k extra u rq state ids en now w j a algs vnow,
+    let r := create_token_response H E issuer f cl k u rq state ids en now in
+    r_access r = AJwt w j a ->
+    let cl' := eff_client f rq cl in
+    j = sign_desc k
+    /\ a_iss a = issuer /\ a_sub a = rq_sub rq
+    /\ a_aud a = (match rq_aud rq with [] => [cl_id cl'] | l => l end)
+    /\ a_client_id a = cl_id cl'
+    /\ a_jti a = token_id f cl' rq ids
+    /\ a_exp a = st_exp now (cl_at_life cl')
+    /\ a_iat a = (sec now - cl_skew cl')%Z /\ a_nbf a = a_iat a
+    /\ (forall e, In e (a_extra a) ->
+          string_in ("custom:" ++ fst e)%string (restrict (cl_drop_at cl') (rq_scopes rq)) = true)
+    /\ (sign_complete verify k -> key_ok k = true ->
+        string_in (sk_alg k) (effective_algs algs) = true ->
+        (0 <= vnow)%Z -> (vnow < st_exp now (cl_at_life cl') * ns)%Z ->
+        verify_access_token verify (mkVerifier issuer "" 0 0 0 None None algs)
+                            (KSOpenID (Some (served_keys k extra)))
+                            (sym_token j) (MidOk "P" (at_to_c01 a)) vnow = Accept (at_to_c01 a) (sk_alg k)).
+Proof. exact access_jwt_verifies. Qed.
+Print Assumptions C06_access_jwt_verifies.
+
+(* scope = the request's (= stored) scopes; expires_in = stored expiry + skew - now
+   (rounded down); refresh token exactly when the flow needs one *)
+Theorem C06_response_fields :
+  forall (H : hkind -> string -> list nat) (E : list nat -> list nat)
+         issuer f cl k u rq state ids en now,
+    let r := create_token_response H E issuer f cl k u rq state ids en now in
+    let cl' := eff_client f rq cl in
+    r_scope r = rq_scopes rq
+    /\ (has_access f = true ->
+        (st_exp now (cl_at_life cl') + cl_skew cl' - sec now - 1 <= r_expires_in r
+         <= st_exp now (cl_at_life cl') + cl_skew cl' - sec now)%Z
+        /\ r_refresh r = (if needs_refresh f cl' (rq_scopes rq) then id_rt ids else ""))
+    /\ (has_access f = false -> r_expires_in r = 0%Z /\ r_refresh r = "" /\ r_access r = ANone).
+Proof. exact response_fields. Qed.
+Print Assumptions C06_response_fields.
+
+(* the property predicate holds of the modelled response and of what the modelled
+   verifiers / readers say about it, for every well-formed case (all flows,
+   token types, keys, skews, lifetimes, scope sets, consistent or not) *)
+Theorem C06_spec_model : forall c, wf c = true -> spec (ICase c) (model (ICase c)) = true.
+Proof. exact spec_model. Qed.
+Print Assumptions C06_spec_model.
+
+Theorem C06_spec_model_nonvacuous :
+  wf ex_case = true /\ consistent ex_case = true
+  /\ (exists j ic, r_id (model_response ex_case) = Some (j, ic) /\ i_sub ic = "tenant:alice"
+                   /\ i_at_hash ic <> "" /\ i_c_hash ic <> "")
+  /\ (exists w, r_access (model_response ex_case) = AOpaque w)
+  /\ r_refresh (model_response ex_case) = "rt2".
+Proof. exact spec_model_nonvacuous. Qed.
+Print Assumptions C06_spec_model_nonvacuous.
